@@ -39,7 +39,10 @@ MANIFEST = dict(
               "correspondence against the C back-ends + translator-checked premise + cross-entry-point oracle",
     design_ref="DESIGN.md section 4 C07",
 )
-REQUIRED = []
+REQUIRED = ["Xmp.Stream." + n for n in (
+    "C07_refines", "C07_memCb_legal", "C07_programs", "C07_programs_memCb", "C07_divergence", "C07_divergence_read8s",
+    "C07_divergence_tail", "C07_D1", "C07_D2", "C07_D3", "C07_D4", "C07_D5", "C07_D6", "C07_F14_pattern",
+    "C07_same_core", "C07_entrypoints", "C07_entrypoints_test")]
 
 SENT = "a5"
 
@@ -191,7 +194,7 @@ def stream_correspondence(ck, stats):
 
 def run(ck):
     stats = {"ops": 0, "ops_in_fragment": 0, "s8_at_eof": 0, "cases_with_observed_divergence": 0}
-    ck.proofs(["XmpModel.Stream"], required=REQUIRED, drivers=["drv_c07"])
+    ck.proofs(["XmpProps.C07"], required=REQUIRED, drivers=["drv_c07"])
     stream_correspondence(ck, stats)
     for k, v in sorted(stats.items()):
         ck.note(k, v)
